@@ -101,7 +101,9 @@ inductive TimeRev where
   | v0     -- upstream: one cell, every detected layout is remembered
   | v1     -- b6010cd: the static-analysis value of the date expression answers <PARSE-ERROR>
   | v2     -- cb6fa4b: that value is parsed by its own layout, which is not remembered
-  | cur    -- 3acd3a0 + 6998c9c: as v2, and a static analysis uses a cell of its own (`staticFormat`)
+  | v3     -- 3acd3a0 + 6998c9c: as v2, and a static analysis uses a cell of its own (`staticFormat`)
+  | cur    -- 1dba502: as v3, and a static analysis touches the context (`context.GetMatch(-1)`) unless the date
+           -- expression is constant by itself: a stage that answers from its memory is never folded
   deriving DecidableEq
 
 /-- `atomicFormat` and `staticFormat` (`none` = `""`). -/
@@ -111,13 +113,14 @@ structure TimeSt (L : Type) where
 
 def TimeSt.fresh {L : Type} : TimeSt L := ⟨none, none⟩
 
-/-- One evaluation of the closure on the date string `s`; `static` = `InStaticAnalysis(context)`. -/
+/-- One evaluation of the closure on the date string `s`; `static` = `InStaticAnalysis(context)`: the answer and
+    the two cells (the touch of the context is `timeTouches`). -/
 def timeStep {L : Type} (rev : TimeRev) (lib : TimeLib L) (emptyTime : Bytes) (static : Bool) (s : Bytes)
     (st : TimeSt L) : Bytes × TimeSt L :=
   if s = [] then (ErrorParsing, st)
   else if rev = .v1 ∧ s = emptyTime then (ErrorParsing, st)
   else
-    let useStatic : Bool := rev = .cur && static
+    let useStatic : Bool := (rev = .v3 || rev = .cur) && static
     match (if useStatic then st.static else st.real) with
     | some l => (lib.parseOr l s, st)
     | none =>
@@ -125,29 +128,56 @@ def timeStep {L : Type} (rev : TimeRev) (lib : TimeLib L) (emptyTime : Bytes) (s
       | none => (ErrorParsing, st)
       | some l =>
         (lib.parseOr l s,
-          if (rev = .v2 ∨ rev = .cur) ∧ s = emptyTime then st
+          if (rev = .v2 ∨ rev = .v3 ∨ rev = .cur) ∧ s = emptyTime then st
           else if useStatic then { st with static := some l } else { st with real := some l })
+
+/-- Does that evaluation touch the context (`context.GetMatch(-1)`, the answer is dropped)?  Only the code as it
+    is, only under static analysis, only when the date expression is not constant by itself
+    (`_, constTime := EvalStaticStage(dateStage)`), and only past the empty check (an empty date answers
+    `<PARSE-ERROR>` whatever is remembered). -/
+def timeTouches (rev : TimeRev) (constTime static : Bool) (s : Bytes) : Bool :=
+  decide (rev = .cur) && static && !constTime && decide (s ≠ [])
+
+/-- `if b { context.GetMatch(-1) }` in front of a computation. -/
+def touchIf {α : Type} (b : Bool) (c : Comp α) : Comp α :=
+  if b then .getMatch (-1) fun _ => c else c
+
+/-- Whether a stateless stage is constant by itself (`_, ok := EvalStaticStage(stage)`). -/
+def constOf (s : Stage) : Bool :=
+  match s.probe with
+  | .ok (_, c) => c
+  | .error _ => false
 
 /-- The `cache` stage over a (stateless) date stage. -/
 def timeCacheRev {L : Type} (rev : TimeRev) (lib : TimeLib L) (date : Stage) : SStage (TimeSt L) := fun static st =>
-  date.bind fun s => .ret (timeStep rev lib (emptyOf date) static s st)
+  date.bind fun s =>
+    touchIf (timeTouches rev (constOf date) static s) (.ret (timeStep rev lib (emptyOf date) static s st))
 
 /-- The code as it is. -/
 def timeCache {L : Type} (lib : TimeLib L) (date : Stage) : SStage (TimeSt L) := timeCacheRev .cur lib date
 
-/-- A `cache` stage with date expression `{0}` reached through sub-contexts – evaluated by a binder (`@map`,
-    `@filter`, …) on every element of an array, or by a funcs-file function on its argument – the values being
-    those of `elems` in the caller's context, one cache for all. -/
+/-- A `cache` stage with date expression `{0}` (not constant by itself) reached through sub-contexts – evaluated by
+    a binder (`@map`, `@filter`, …) on every element of an array, or by a funcs-file function on its argument – the
+    values being those of `elems` in the caller's context, one cache for all.  The touch has a negative index, which
+    sub-contexts hand to their parent: it is a look-up of the caller's context. -/
 def timeOnElems {L : Type} (rev : TimeRev) (lib : TimeLib L) : List Stage → SComp (TimeSt L) (List Bytes)
   | [], _, st => .ret ([], st)
   | e :: rest, static, st =>
     e.bind fun v =>
       let r := timeStep rev lib [] static v st
-      (timeOnElems rev lib rest static r.2).bind fun p => .ret (r.1 :: p.1, p.2)
+      touchIf (timeTouches rev false static v)
+        ((timeOnElems rev lib rest static r.2).bind fun p => .ret (r.1 :: p.1, p.2))
 
 /-- The answers joined (the enclosing stage). -/
 def timeMapStage {L : Type} (rev : TimeRev) (lib : TimeLib L) (elems : List Stage) : SStage (TimeSt L) :=
   fun static st => (timeOnElems rev lib elems static st).bind fun p => .ret (p.1.flatten, p.2)
+
+/-- Two stages evaluated one after the other on the SAME hidden state, the answers joined – two call sites of one
+    funcs-file function share the closures of its body (`keyBuilderToFunction` is handed the body compiled once), so
+    `{ts "2020-01-01"}|{ts {0}}` is `seqS` of two `timeMapStage`s over one layout cache; `optimize` looks at each
+    of the two stages separately. -/
+def seqS {σ : Type} (a b : SStage σ) : SStage σ := fun static st =>
+  (a static st).bind fun p => (b static p.2).bind fun q => .ret (p.1 ++ q.1, q.2)
 
 /-! ## Pooled context objects -/
 
